@@ -5,6 +5,7 @@ import (
 	"encoding/binary"
 	"fmt"
 	"net/netip"
+	"sort"
 	"strings"
 	"time"
 
@@ -49,13 +50,18 @@ func genDHCP(prop string, seed uint64, tier string) Scenario {
 		}
 		return 1 + r.n(11)
 	}
-	// weights: disc req decl rel capture release adv tick foreign session(dora)
-	wts := []int{18, 26, 5, 4, 5, 3, 10, 5, 6, 12}
+	if tier == "quick" {
+		sc.Extra = map[string]int{"quick": 1}
+	}
+	// weights: disc req decl rel capture release adv tick foreign session(dora) fsfail
+	wts := []int{18, 26, 5, 4, 5, 3, 10, 5, 6, 12, 0}
 	if prop == "C12" {
-		wts = []int{18, 26, 3, 3, 9, 6, 8, 4, 4, 14}
+		wts = []int{18, 26, 3, 3, 9, 6, 8, 4, 4, 14, 0}
 	}
 	if prop == "C18" {
-		wts = []int{10, 12, 3, 2, 4, 2, 6, 3, 4, 30}
+		wts = []int{10, 12, 3, 2, 4, 2, 6, 3, 4, 30, 3}
+		nops = 2 + r.n(14)
+		sc.Family = "lease"
 	}
 	for len(sc.Ops) < nops {
 		switch r.weighted(wts) {
@@ -81,6 +87,8 @@ func genDHCP(prop string, seed uint64, tier string) Scenario {
 			m := client()
 			p := r.n(4)
 			sc.Ops = append(sc.Ops, Op{K: "disc", M: m, P: p, N: r.n(3)}, Op{K: "req", M: m, P: p, N: r.n(3)})
+		case 10:
+			sc.Ops = append(sc.Ops, Op{K: "fsfail", D: r.n(2), X: r.n(700)})
 		}
 	}
 	return sc
@@ -147,12 +155,17 @@ type reqInfo struct {
 
 type dhcpRun struct {
 	*exec
-	cl      []*dhClient
-	hold    map[netip.Addr]holding // conservative: who currently holds an acknowledged address
-	lastAck map[string]ackRec      // liberal: last address acknowledged to a client id
-	offers  map[string]offerRec    // offers made per client id
-	foreign []netip.Addr
-	acked   int
+	onAck         func(d *dhcpRun, ri *reqInfo, y netip.Addr)
+	rediscovered  map[string]bool // client ids that sent a DISCOVER after their last ACK
+	failArmed     bool
+	saveFailed    bool
+	anySaveFailed bool
+	cl            []*dhClient
+	hold          map[netip.Addr]holding // conservative: who currently holds an acknowledged address
+	lastAck       map[string]ackRec      // liberal: last address acknowledged to a client id
+	offers        map[string]offerRec    // offers made per client id
+	foreign       []netip.Addr
+	acked         int
 }
 
 func clientID(variant int, mac fb.MAC) []byte {
@@ -253,7 +266,13 @@ func (d *dhcpRun) send(c *dhClient, typ byte, o Op, ri reqInfo, srcIP netip.Addr
 func (d *dhcpRun) now() time.Duration { return time.Duration(simrt.Now()) }
 
 func (d *dhcpRun) endHolding(cid string, why string) {
-	for ip, h := range d.hold {
+	var ips []netip.Addr
+	for ip := range d.hold {
+		ips = append(ips, ip)
+	}
+	sort.Slice(ips, func(i, j int) bool { return ips[i].Compare(ips[j]) < 0 })
+	for _, ip := range ips {
+		h := d.hold[ip]
 		if h.cid == cid {
 			delete(d.hold, ip)
 			d.tr("holding of %s by %x ends: %s", ip, cid, why)
@@ -261,10 +280,14 @@ func (d *dhcpRun) endHolding(cid string, why string) {
 	}
 }
 
-func runDHCP(e *exec) {
+func runDHCP(e *exec) { runDHCPCore(e, nil) }
+
+func (d *dhcpRun) lastSaveFailed() bool { return d.saveFailed }
+
+func runDHCPCore(e *exec, onAck func(d *dhcpRun, ri *reqInfo, y netip.Addr)) *dhcpRun {
 	w := e.w
 	u := w.U
-	d := &dhcpRun{exec: e, hold: map[netip.Addr]holding{}, lastAck: map[string]ackRec{}, offers: map[string]offerRec{}}
+	d := &dhcpRun{exec: e, onAck: onAck, rediscovered: map[string]bool{}, hold: map[netip.Addr]holding{}, lastAck: map[string]ackRec{}, offers: map[string]offerRec{}}
 	for i := 0; i < nDHCPClients; i++ {
 		d.cl = append(d.cl, &dhClient{idx: i, mac: u.MACs[world.MC1+i], xid: uint32(0x1000 * (i + 1))})
 	}
@@ -297,6 +320,7 @@ func runDHCP(e *exec) {
 			}
 			r := d.send(c, 1, o, reqInfo{xid: c.lastXID, reqIP: req}, zero, zero, false, opts)
 			ri = &r
+			d.rediscovered[r.cid] = true
 		case "req":
 			c := d.cl[o.M%len(d.cl)]
 			xid := c.lastXID
@@ -409,6 +433,15 @@ func runDHCP(e *exec) {
 			w.DHCP.MinuteTicker(simtime.Now())
 			d.probe("minute_ticker")
 			continue
+		case "fsfail":
+			if o.D == 0 {
+				simrt.FSCtl(simrt.FSCtlFailWrite, 1, simrt.FSENOSPC, int64(o.X), nil)
+			} else {
+				simrt.FSCtl(simrt.FSCtlFailWrite, 1, simrt.FSEIO, 0, nil)
+			}
+			d.failArmed = true
+			d.probe("disk_fault_armed")
+			continue
 		case "foreign":
 			ip := u.IP4[world.FirstClientIP4+o.I%(len(u.IP4)-world.FirstClientIP4)]
 			d.foreign = append(d.foreign, ip)
@@ -425,6 +458,7 @@ func runDHCP(e *exec) {
 	}
 	e.res.FramesIn = w.Frames
 	e.res.Extra["acks"] = int64(d.acked)
+	return d
 }
 
 // checkReplies decodes what the server put on the wire after one client message and applies
@@ -628,6 +662,14 @@ func (d *dhcpRun) checkReply(ri *reqInfo, dh *refdec.DHCP, f *refdec.Frame, u *w
 		c.lease = y
 	}
 	d.probe("ack_recorded")
+	delete(d.rediscovered, ri.cid)
+	d.saveFailed = d.failArmed // the save that follows this ACK met the armed disk fault
+	if d.failArmed {
+		d.failArmed, d.anySaveFailed = false, true
+	}
+	if d.onAck != nil {
+		d.onAck(d, ri, y)
+	}
 }
 
 func lastOf(p netip.Prefix) netip.Addr {
